@@ -25,26 +25,34 @@ Definition tstep (k : N) : N :=
 (** the timer the machine believes to be running is for the current round and for the step it is in *)
 Definition tm_ok (s : sm) : Prop :=
   forall k h r, rTimer (rl s) = Some (k, h, r) ->
-    h = rH (rl s) /\ r = rR (rl s) /\ 1 <= k <= 4 /\ rS (rl s) = tstep k /\ rVRV (rl s) <> None.
+    h = rH (rl s) /\ r = rR (rl s) /\ 1 <= k <= 4 /\ rS (rl s) = tstep k.
+Definition V (s : sm) : Prop := rVRV (rl s) <> None.
+Definition tv (s : sm) : Prop := rTimer (rl s) <> None -> V s.
 
 (** the outstanding (harness) timer is the one the machine believes to be running, or has just fired *)
 Definition hsub (s : sm) : Prop := hTimer s = None \/ hTimer s = rTimer (rl s).
 Definition nt (s : sm) : Prop := rTimer (rl s) = None /\ hTimer s = None.
 
 (** the outgoing action channel belongs to the current round, or nothing can be sent on it *)
+Definition out_ok2 (s : sm) : Prop :=
+  rOut (rl s) = None \/ rOut (rl s) = Some (rH (rl s), rR (rl s)).
 Definition out_ok (s : sm) : Prop :=
-  rOut (rl s) = None \/ rOut (rl s) = Some (rH (rl s), rR (rl s)) \/
-  (rPvCh (rl s) = false /\ rPcCh (rl s) = false /\ propOut s <> 1).
+  out_ok2 s \/ (rPvCh (rl s) = false /\ rPcCh (rl s) = false /\ propOut s <> 1).
 Definition pend_ok (s : sm) : Prop :=
   pendAct s = None \/ pendAct s = Some (rH (rl s), rR (rl s)).
 
-Definition GI (s : sm) : Prop := tm_ok s /\ hTimer s = rTimer (rl s) /\ out_ok s /\ run s = Idle.
-Definition GM (s : sm) : Prop := tm_ok s /\ hsub s /\ out_ok s /\ run s = Idle.
+Definition GI0 (s : sm) : Prop := tm_ok s /\ hTimer s = rTimer (rl s) /\ out_ok s /\ run s = Idle.
+Definition GI (s : sm) : Prop := GI0 s /\ tv s.
+Definition GM (s : sm) : Prop := hsub s /\ out_ok s /\ run s = Idle.
 Definition GN (s : sm) : Prop := nt s /\ out_ok s /\ run s = Idle.
-Definition V (s : sm) : Prop := rVRV (rl s) <> None.
+Definition GN2 (s : sm) : Prop := nt s /\ out_ok2 s /\ run s = Idle.
+Definition GIV (s : sm) : Prop := GI s /\ V s.
+Definition GMV (s : sm) : Prop := GM s /\ V s.
+Definition GNV (s : sm) : Prop := GN s /\ V s.
 
-Definition SQ (s : sm) : Prop :=
-  nt s /\ pend_ok s /\ (run s = Idle \/ exists t, run s = AwaitAdv t).
+(** at a suspension in a round entrance (and while awaiting its response) *)
+Definition SQ0 (s : sm) : Prop := nt s /\ pend_ok s /\ propOut s <> 1.
+Definition SQ (s : sm) : Prop := SQ0 s /\ (run s = Idle \/ exists t, run s = AwaitAdv t).
 
 (** every output: a timer is never started while one is outstanding *)
 Definition Po (o : out) : Prop :=
@@ -52,13 +60,18 @@ Definition Po (o : out) : Prop :=
 
 Lemma GN_GI s : GN s -> GI s.
 Proof.
-  intros ((A & B) & C & D). split; [|split; [congruence|split; assumption]].
-  intros k h r E. congruence.
+  intros ((A & B) & C & D). split; [split; [|split; [congruence|split; assumption]]|].
+  - intros k h r E. congruence.
+  - intros E. congruence.
 Qed.
 Lemma GI_GM s : GI s -> GM s.
-Proof. intros (A & B & C & D). split; [exact A|split; [right; exact B|split; assumption]]. Qed.
+Proof. intros ((A & B & C & D) & _). split; [right; exact B|split; assumption]. Qed.
 Lemma GN_GM s : GN s -> GM s.
 Proof. intros H. apply GI_GM, GN_GI, H. Qed.
+Lemma GN2_GN s : GN2 s -> GN s.
+Proof. intros (A & B & C). split; [exact A|split; [left; exact B|exact C]]. Qed.
+Lemma GI0_V s : GI0 s -> V s -> GIV s.
+Proof. intros A B. split; [split; [exact A|intros _; exact B]|exact B]. Qed.
 
 (** ** The logic *)
 Definition post (G : sm -> Prop) (s : sm) (f : flow) : Prop :=
@@ -113,7 +126,7 @@ Lemma tr_never (P G G' : sm -> Prop) m : tr P m (fun _ => False) -> tr P m G.
 Proof. intros Hm. eapply tr_post; [|exact Hm]. intros s []. Qed.
 
 (** ** Tactics for the leaves: assertions are conjunctions about a few fields *)
-Ltac unf := unfold GI, GM, GN, V, SQ, nt, hsub, out_ok, pend_ok, tm_ok in *.
+Ltac unf := unfold GIV, GMV, GNV, GI, GI0, GM, GN, GN2, tv, V, SQ, SQ0, nt, hsub, out_ok, out_ok2, pend_ok, tm_ok in *.
 Ltac fields := cbn [rl run gen cm propOut enterErr finReq hcOpen hTimer liveSeen signer pendAct aStore fStore sStore pend
   set_run set_rl set_gen set_cm set_propOut set_enterErr set_finReq set_hcOpen set_hTimer set_liveSeen set_signer
   set_pendAct set_aStore set_fStore set_sStore set_pend
@@ -127,19 +140,24 @@ Definition frame (P : sm -> Prop) : Prop :=
   (forall s x, P s -> P (set_rl (set_rConsidered x (rl s)) s)) /\
   (forall s x, P s -> P (set_finReq x s)) /\
   (forall s x, P s -> P (set_pend x s)) /\
-  (forall s x, P s -> P (set_enterErr x s)).
+  (forall s x, P s -> P (set_enterErr x s)) /\
+  (forall s x, P s -> P (set_aStore x s)).
 
-Ltac frame_tac := unfold frame; split; [|split; [|split; [|split]]]; intros; unf; fields; assumption.
+Ltac frame_tac := unfold frame; split; [|split; [|split; [|split; [|split]]]]; intros; unf; fields; assumption.
 
 Lemma frame_GI : frame GI. Proof. frame_tac. Qed.
 Lemma frame_GM : frame GM. Proof. frame_tac. Qed.
 Lemma frame_GN : frame GN. Proof. frame_tac. Qed.
 Lemma frame_and P Q : frame P -> frame Q -> frame (fun s => P s /\ Q s).
 Proof.
-  intros (a1 & a2 & a3 & a4 & a5) (b1 & b2 & b3 & b4 & b5).
-  split; [|split; [|split; [|split]]]; intros s x [H1 H2]; split; auto.
+  intros (a1 & a2 & a3 & a4 & a5 & a6) (b1 & b2 & b3 & b4 & b5 & b6).
+  split; [|split; [|split; [|split; [|split]]]]; intros s x [H1 H2]; split; auto.
 Qed.
 Lemma frame_V : frame V. Proof. frame_tac. Qed.
+Lemma frame_GIV : frame GIV. Proof. frame_tac. Qed.
+Lemma frame_GNV : frame GNV. Proof. frame_tac. Qed.
+Lemma frame_GMV : frame GMV. Proof. frame_tac. Qed.
+Lemma frame_GN2 : frame GN2. Proof. frame_tac. Qed.
 Lemma frame_rS n : frame (fun s => rS (rl s) = n). Proof. frame_tac. Qed.
 
 (** ** Primitives *)
@@ -181,41 +199,35 @@ Proof.
 Qed.
 
 (** cancelling: afterwards no timer is believed running and none is outstanding *)
-Lemma tr_cancel must : tr GM (cancel_timer must) GN.
+Lemma cancel_core must s : GM s ->
+  post GN (st (cancel_timer must s)) (fl (cancel_timer must s)) /\ Forall Po (ou (cancel_timer must s)) /\
+  (V s -> V (st (cancel_timer must s))).
 Proof.
-  intros s (T & Hs & O & R). unfold cancel_timer, withS.
+  intros (Hs & O & R). unfold cancel_timer, withS.
   destruct (rTimer (rl s)) as [[[k h] r]|] eqn:E.
-  - unfold bindM, say, upd, updr, st, fl, ou. simpl. split; [|repeat constructor].
-    unfold GN, nt, out_ok. fields. repeat split; auto.
+  - unfold bindM, say, upd, updr, st, fl, ou. simpl. split; [|split; [repeat constructor|intros H; exact H]].
+    unfold GN, nt, out_ok, out_ok2. fields. split; [split; [reflexivity|]|split; assumption].
     destruct Hs as [Hs|Hs]; rewrite Hs; [reflexivity|].
     rewrite E. unfold eq3. rewrite !N.eqb_refl. reflexivity.
-  - destruct must; simpl; (split; [|constructor]); [exact I|].
+  - destruct must; simpl; (split; [|split; [constructor|intros H; exact H]]); [exact I|].
     unfold st. simpl. split; [split; [exact E|destruct Hs as [Hs|Hs]; congruence]|split; assumption].
 Qed.
 
-(** cancelling keeps what does not look at the timers *)
-Definition tframe (P : sm -> Prop) : Prop :=
-  forall s x y, P s -> P (set_rl (set_rTimer x (rl s)) (set_hTimer y s)).
+Lemma tr_cancel must : tr GM (cancel_timer must) GN.
+Proof. intros s H. destruct (cancel_core must s H) as (A & B & _). split; assumption. Qed.
 
-Lemma tr_cancel_and must P : tframe P -> tr (fun s => GM s /\ P s) (cancel_timer must) (fun s => GN s /\ P s).
+Lemma tr_cancelV must : tr GMV (cancel_timer must) GNV.
 Proof.
-  intros TF s [G HP]. destruct (tr_cancel must s G) as [Q F]. split; [|exact F].
-  revert Q. unfold cancel_timer, withS.
-  destruct (rTimer (rl s)) as [[[k h] r]|] eqn:E.
-  - unfold bindM, say, upd, updr, st, fl, ou. simpl. intros Q. split; [exact Q|].
-    apply (TF s None _ HP).
-  - destruct must; simpl; auto.
+  intros s [H HV]. destruct (cancel_core must s H) as (A & B & C). split; [|exact B].
+  destruct (fl (cancel_timer must s)); simpl in *; auto. split; auto.
 Qed.
 
-Lemma tframe_V : tframe V. Proof. intros s x y H. exact H. Qed.
-
-(** starting a timer of kind [k] right after entering its step *)
-Lemma tr_enter_step k : 1 <= k <= 4 ->
-  tr (fun s => GN s /\ V s) (updr (set_rS (tstep k)) ;; start_timer k) (fun s => GI s /\ V s).
-Proof.
-  intros Hk s (((T1 & T2) & O & R) & HV). unfold bindM, updr, start_timer, withS, say, upd, st, fl, ou. simpl.
-  split.
-  - split; [|exact HV]. unfold GI, tm_ok. fields. split; [|split; [reflexivity|split; assumption]].
-    intros k' h r E. inversion E; subst. split; [reflexivity|split; [reflexivity|split; [exact Hk|split; [reflexivity|exact HV]]]].
-  - repeat constructor. simpl. rewrite T2. reflexivity.
-Qed.
+Lemma frame_GI0 : frame GI0. Proof. frame_tac. Qed.
+Lemma GIV_GMV s : GIV s -> GMV s.
+Proof. intros [A B]. split; [apply GI_GM; exact A|exact B]. Qed.
+Lemma GNV_GIV s : GNV s -> GIV s.
+Proof. intros [A B]. split; [apply GN_GI; exact A|exact B]. Qed.
+Lemma GNV_GM s : GNV s -> GM s.
+Proof. intros [A B]. apply GN_GM; exact A. Qed.
+Lemma GIV_GI s : GIV s -> GI s.
+Proof. intros [A B]. exact A. Qed.
